@@ -38,7 +38,12 @@ RULE = ("streams: `loop` = NoisySamplingSimulator._noisy_sampling run on every (
         "BSDistribution.sample, Clifford2017Backend.samples and one-at-a-time sample(); with BasicState + NoiseModel inputs (source path) AND custom SVDistribution inputs over all modes (distribution "
         "path: 1-5 members, vacuum member, distinguishability tags); `point-inputs` = one- and two-member SVDistributions "
         "(vacuum included) through a mode permutation with a satisfied herald: deterministic outcomes, every member drawn; "
-        "`history` = ONE long-lived Processor (imperfect source) through sample / reconfigure (filter up, down, to 0; input; "
+        "`source-grid` = goodness-of-fit (N = 30000) on the cross-product of the source fields — both multi-photon models, "
+        "g2 0.3/0.4, indistinguishability 0.5/0.3, transmittance, brightness, filter 0/1/n — on small interfering circuits "
+        "(quick: stratified draw, always both models with partial distinguishability and a filter >= 1; thorough: whole grid); "
+        "the random processors of gof / bounds / history range over EVERY NoiseModel field (g2_distinguishable both ways, "
+        "phase_imprecision with the quantised matrix computed by the driver, phase_error with the matrix in force read back "
+        "from the back-end and bounded against the nominal one); `history` = ONE long-lived Processor (imperfect source) through sample / reconfigure (filter up, down, to 0; input; "
         "noise; post-selection set or cleared) / sample again, every batch (5000 samples quick, 20000 thorough) judged by "
         "goodness-of-fit, performances, count and legality against the exact table of the configuration in force, computed from "
         "a fresh processor; failures shrunk to [sample, operations, sample]; `seed-sizes` = every seeded entry point taking a "
@@ -51,8 +56,10 @@ RULE = ("streams: `loop` = NoisySamplingSimulator._noisy_sampling run on every (
         "not on the last modes, noise, or a repaired table; distinct by full configuration.")
 TRUSTED = ["model: coq/Model/Sampling.v, SamplingX.v (hand-written from noisy_sampling_simulator.py, conversion.py; tied by "
            "the `loop`, `simulator`, `counts` streams), Select.v / SelectX.v (C04), Detector.v (C08)",
-           "the input mixture of a noisy processor is read from the implementation (Processor.source_distribution; the "
-           "source model is C06) and fed to the model",
+           "the input mixture of a noisy processor is read from the implementation — Processor.source_distribution of a FRESH "
+           "processor built at the configuration under test, never from the sampled object — and fed to the model; the Gallina "
+           "model of C09 has no source of its own (the source model with its multi-photon switch is C06's, which ties "
+           "generate_distribution to it)",
            "scipy.stats.chi2 for the p-values"]
 ASSUMPTIONS = [
     "STATISTICAL, not proved: the real samplers (exqalibur Clifford2017, random.choices, numpy.random) are exact draws "
@@ -120,6 +127,64 @@ def det_build(d):
     return Detector.ppnr(d[1], d[2])
 
 
+PERFECT = dict(brightness=1.0, g2=0.0, g2_distinguishable=True, indistinguishability=1.0, transmittance=1.0,
+               phase_imprecision=0.0, phase_error=0.0)
+
+
+def rand_noise(r, n_tot, phase=True):
+    """Every NoiseModel field that reaches the sampler: the source fields (brightness, g2 with BOTH multi-photon models,
+    indistinguishability, transmittance — weak and strong values, g2 > 0 together with partial distinguishability and
+    loss) and the circuit fields read through linear_circuit() (phase_imprecision = quantisation of the PS phases,
+    phase_error = random error on the PS phases). Sizes are bounded so that the exact mixture stays small."""
+    noise = dict(brightness=r.choice([1.0, 0.9, 0.6]), g2=r.choice([0.0, 0.05, 0.3, 0.4]),
+                 g2_distinguishable=r.chance(1, 2),
+                 indistinguishability=r.choice([1.0, 0.92, 0.75, 0.5]), transmittance=r.choice([1.0, 0.8, 0.5]),
+                 phase_imprecision=r.choice([0.0, 0.0, 0.0, 0.1, 0.5]) if phase else 0.0,
+                 phase_error=r.choice([0.0, 0.0, 0.0, 0.0, 0.05, 0.3]) if phase else 0.0)
+    if n_tot > 2 or r.chance(1, 3):
+        noise["g2"] = 0.0           # a double emission on each of 3 photons: hundreds of inputs
+    if n_tot > 3:                   # keeps the exact mixture small (4 partially distinguishable photons = 72 inputs x 4 groups)
+        noise["indistinguishability"] = 1.0
+    if noise["g2"] == 0.0:
+        noise["g2_distinguishable"] = True
+    if noise == PERFECT:
+        return None
+    return noise
+
+
+def float_unitary(cs, noise):
+    """The circuit matrix with the PS phases quantised to multiples of phase_imprecision (computed here, not read from the
+    sampled object): product of the exact component matrices, the quantised phase shifters in floating point."""
+    import cmath
+    m = cs["m"]
+    q = noise.get("phase_imprecision", 0.0)
+    U = [[complex(i == j) for j in range(m)] for i in range(m)]
+    for off, lf in cs["circ"].items:
+        if lf.kind == "PS":
+            phi = float(lf.build().param("phi"))          # the value the component holds (wrapped into its range: C14)
+            blk = [[cmath.exp(1j * (q * round(phi / q)))]]
+        else:
+            blk = [[complex(x) for x in row] for row in lf.U]
+        E = [[complex(i == j) for j in range(m)] for i in range(m)]
+        for i, row in enumerate(blk):
+            for j, x in enumerate(row):
+                E[off + i][off + j] = x
+        U = [[sum(E[i][k] * U[k][j] for k in range(m)) for j in range(m)] for i in range(m)]
+    return U
+
+
+def qi_of_complex_matrix(U):
+    from ..common import QI
+    return [[QI(frac_of_float(complex(x).real), frac_of_float(complex(x).imag)) for x in row] for row in U]
+
+
+def effective_U(cs):
+    noise = cs.get("noise") or {}
+    if noise.get("phase_imprecision", 0.0) > 0 and any(lf.kind == "PS" for _, lf in cs["circ"].items):
+        return qi_of_complex_matrix(float_unitary(cs, noise))
+    return cs["circ"].U
+
+
 def rand_case(r, mmax=4, allow_dets=True):
     m = r.rint(2, mmax)
     c = rand_circ(r, m, r.chance(7, 8))
@@ -137,16 +202,9 @@ def rand_case(r, mmax=4, allow_dets=True):
     flt = r.rint(0, sum(inp))
     use_ps = r.chance(1, 3)
     ps_tree, ps_str = rand_ps(r, len(free)) if use_ps else ([0], None)
-    noise = None
-    if r.chance(3, 5):
-        noise = dict(brightness=r.choice([1.0, 0.9, 0.6]), g2=r.choice([0.0, 0.0, 0.05]),
-                     indistinguishability=r.choice([1.0, 0.92, 0.75]), transmittance=r.choice([1.0, 0.8, 0.5]))
-        if noise["g2"] > 0 and n_tot > 2:
-            noise["g2"] = 0.0
-        if n_tot > 3:        # keeps the exact mixture small (4 partially distinguishable photons = 72 inputs x 4 groups)
-            noise["indistinguishability"] = 1.0
-        if all(noise[k] == v for k, v in dict(brightness=1.0, g2=0.0, indistinguishability=1.0, transmittance=1.0).items()):
-            noise = None
+    noise = rand_noise(r, n_tot) if r.chance(3, 5) else None
+    if noise and noise["g2"] > 0 and noise["indistinguishability"] < 1 and r.chance(2, 3):
+        flt = max(flt, 1)        # a filter >= 1 makes the sampler draw its inputs from the source's event table
     dets = [None] * m
     kind = r.choice(["none", "none", "thr", "ppnr", "pnr", "mixed", "mixed", "partial"]) if allow_dets else "none"
     if kind == "thr":
@@ -246,8 +304,8 @@ def model_cost_req(rq):
     return sum(math.prod(math.comb(rq[1][0] + sum(g) - 1, sum(g)) for g in pq[1]) for pq in rq[1][2])
 
 
-def model_req(cs, mix, F):
-    return (900, [cs["m"], cs["circ"].U, mix, [[h, v] for h, v in cs["heralds"].items()],
+def model_req(cs, mix, F, U=None):
+    return (900, [cs["m"], U if U is not None else effective_U(cs), mix, [[h, v] for h, v in cs["heralds"].items()],
                   remap_ps(cs["ps_tree"], cs["free"]), F, 0, [det_enc(d) for d in cs["dets"]] if any(cs["dets"]) else []])
 
 
@@ -307,7 +365,8 @@ def judge_batch(res, wd, table, mix, F, N):
 
 
 def un_pipe(x):
-    return float(un_q(x[0])), float(un_q(x[1])), {tuple(e[0]): float(un_q(e[1])) for e in x[2]}
+    # (a matrix given in floating point is unitary up to 1e-16 only: performances are clamped to [0, 1])
+    return min(float(un_q(x[0])), 1.0), min(float(un_q(x[1])), 1.0), {tuple(e[0]): float(un_q(e[1])) for e in x[2]}
 
 
 def chi_square(expected: dict, observed: Counter, n: int):
@@ -640,6 +699,13 @@ def stream_bounds(ctx, cases_with_accept):
                         except Exception as e:
                             ctx.fail(f"bounds-exception-{type(e).__name__}", f"raised {type(e).__name__}: {e}", desc)
                     continue
+                if cs.get("svd") and msh is None and ms is not None and ms < 5:
+                    # the distribution path trims the inputs of probability < max_p / max_samples before sampling (by design,
+                    # see ASSUMPTIONS): with max_samples 1 or 2 only the most probable inputs remain, and if none of them can
+                    # pass the selection an unbounded call never returns although the processor's acceptance is fine.
+                    # Outside the model (the mixture is not trimmed there): not sampled, counted.
+                    ctx.count("bounds.skipped-unbounded-call-on-trimmed-inputs")
+                    continue
                 case = {**desc, "max_samples": ms, "max_shots": msh}
                 wd = Watchdog(50000)       # <= 5 samples at acceptance >= 0.02: ~250 iterations expected
                 try:
@@ -697,6 +763,31 @@ def gof_processor(ctx, cs, out_spec, out_impl, N, tag):
             sig = "samples-None-detector-AttributeError"
         ctx.fail(sig, f"samples raised {type(e).__name__}: {e}", desc)
         return
+    if (cs["noise"] or {}).get("phase_error", 0.0) > 0 and any(lf.kind == "PS" for _, lf in cs["circ"].items):
+        # the phase shifters drew a random error when the back-end computed its matrix: the reference is the exact table
+        # of the matrix in force (white-box read), which must stay within the announced error of the nominal one
+        import subprocess
+        import numpy as np
+        used = np.asarray(p.backend._umat)
+        nominal = np.asarray(float_unitary(cs, cs["noise"]) if cs["noise"].get("phase_imprecision", 0.0) > 0
+                             else [[complex(x) for x in row] for row in cs["circ"].U])
+        n_ps = sum(lf.kind == "PS" for _, lf in cs["circ"].items)
+        dev = float(np.max(np.abs(used - nominal)))
+        ctx.count("gof.phase_error")
+        if dev > n_ps * cs["noise"]["phase_error"] + 1e-9 or not np.allclose(used @ used.conj().T, np.eye(cs["m"]), atol=1e-9):
+            ctx.fail("gof-phase_error-matrix", f"the matrix used for sampling is {dev:.4f} away from the nominal one "
+                     f"({n_ps} phase shifters, phase_error {cs['noise']['phase_error']}) or not unitary", desc)
+            return
+        try:
+            mix_ = mixture_of_svd(build_proc(cs).source_distribution)
+            F_ = cs["flt"] + herald_photons
+            tab = ctx.model.run([model_req(cs, mix_, F_, U=qi_of_complex_matrix(used.tolist()))], timeout=30 if ctx.quick() else 300, jobs=1)[0]
+        except subprocess.TimeoutExpired:
+            ctx.count("model.table-over-budget")
+            return
+        out_spec = list(tab) + [out_spec[3]]
+        out_impl = None
+        e_phys, e_log, e_dist = un_pipe(out_spec[1])
     obs = Counter(tuple(s) for s in res["results"])
     n = sum(obs.values())
     pv, stat, df, impossible = chi_square(e_dist, obs, n)
@@ -708,6 +799,13 @@ def gof_processor(ctx, cs, out_spec, out_impl, N, tag):
                                                           "performances(samples)": [float(res["physical_perf"]), float(res["logical_perf"])]}))
     ctx.count("gof.det." + cs["det_kind"])
     ctx.count("gof.noise." + ("on" if cs["noise"] else "off"))
+    if cs["noise"]:
+        nz = cs["noise"]
+        if nz["g2"] > 0:
+            ctx.count("gof.noise.g2." + ("distinguishable" if nz["g2_distinguishable"] else "indistinguishable")
+                      + ("+partial-distinguishability" if nz["indistinguishability"] < 1 else "") + ("+filter>=1" if cs["flt"] + herald_photons >= 1 else ""))
+        if nz["phase_imprecision"] > 0:
+            ctx.count("gof.noise.phase_imprecision")
     ctx.count("gof.input." + ("SVDistribution" + ("+vacuum" if any(sum(e[0]) == 0 for e in cs["svd"]) else "") if cs.get("svd") else "BasicState"))
     ctx.count("gof.heralds.%d" % len(cs["heralds"]))
     bad = None
@@ -812,8 +910,9 @@ def stream_seed(ctx):
         c = rand_circ(r, m, True)
         inp = gen.rand_state(r, m, r.rint(1, 3))
         noise = dict(emission_probability=r.choice([1.0, 0.8]), multiphoton_component=r.choice([0.0, 0.04]),
-                     indistinguishability=r.choice([1.0, 0.9]), losses=r.choice([0.0, 0.3]))
-        if all(v in (1.0, 0.0) for v in noise.values()) and noise["emission_probability"] == 1.0 and noise["indistinguishability"] == 1.0:
+                     indistinguishability=r.choice([1.0, 0.9]), losses=r.choice([0.0, 0.3]),
+                     multiphoton_model=r.choice(["distinguishable", "indistinguishable"]))
+        if all(v in (1.0, 0.0) for v in noise.values() if not isinstance(v, str)) and noise["emission_probability"] == 1.0 and noise["indistinguishability"] == 1.0:
             noise["losses"] = 0.3
         flt = r.rint(0, 1)
         dets = [Detector.ppnr(r.rint(2, 3)) for _ in range(m)]
@@ -1184,6 +1283,66 @@ def stream_point_inputs(ctx):
     ctx.streams["point-inputs"] = n
 
 
+# ------------------------------------------------------------------ stream: grid over the source fields
+def stream_source_grid(ctx):
+    """Goodness-of-fit on the cross-product of the source fields that reach the sampler — multi-photon model (both),
+    g2 in {0.3, 0.4}, indistinguishability in {0.5, 0.3}, transmittance, brightness, filter 0 / 1 / n — on small interfering
+    circuits (two photons meeting on a genuine beam splitter, m = 2..3, optionally one of them a heralded photon), strong
+    values so that a mis-tagged or mis-weighted emission moves a cell by many standard deviations at N = 30000.
+    quick: a stratified draw of the grid (always both multi-photon models with partial distinguishability and a filter
+    >= 1); thorough: the whole grid."""
+    rng = ctx.rng.fork("source-grid")
+    grid = [dict(brightness=b, g2=g2, g2_distinguishable=gd, indistinguishability=ind, transmittance=tr,
+                 phase_imprecision=0.0, phase_error=0.0)
+            for gd in (False, True) for g2 in (0.3, 0.4) for ind in (0.5, 0.3) for tr in (1.0, 0.8) for b in (1.0, 0.9)]
+    combos = [(nz, f) for nz in grid for f in ("0", "1", "n")]
+    if ctx.quick():
+        r = rng.fork("pick")
+        pick = lambda gd, fs: r.choice([c for c in combos if c[0]["g2_distinguishable"] == gd and c[1] in fs])
+        combos = [pick(False, "1n"), pick(False, "n"), pick(False, "1"), pick(True, "1n"), pick(False, "0"), pick(True, "0n")]
+    cases = []
+    for i, (nz, f) in enumerate(combos):
+        r = rng.fork(i)
+        for _ in range(50):
+            m = r.rint(2, 3)
+            c = rand_circ(r.fork(("c", _)), m, True)
+            if any(0.2 <= abs(complex(x)) ** 2 <= 0.8 for row in c.U for x in row):
+                break
+        heralded = r.chance(1, 3)
+        a, b = r.shuffle(range(m))[:2]
+        heralds = {a: 1} if heralded else {}
+        free = [j for j in range(m) if j not in heralds]
+        inp = [0] * len(free)
+        inp[free.index(b)] += 1
+        if not heralded:
+            inp[free.index(a)] += 1
+        n_free = sum(inp)
+        flt = {"0": 0, "1": 1 if not heralded else 0, "n": n_free}[f]       # with a heralded photon the sampler's filter is flt + 1 >= 1
+        cases.append(dict(circ=c, m=m, heralds=heralds, free=free, inp=inp, flt=flt, ps_tree=[0], ps_str=None, noise=dict(nz),
+                          dets=[None] * m, det_kind="none", svd=None))
+    reqs, mixes = [], []
+    for cs in cases:
+        mix = mixture_of_svd(build_proc(cs).source_distribution)       # from a FRESH processor, never from the sampled object
+        mixes.append(mix)
+        reqs.append(model_req(cs, mix, cs["flt"] + sum(cs["heralds"].values())))
+    outs = exact_tables(ctx, reqs)
+    done = 0
+    for tag, (cs, mix, out) in enumerate(zip(cases, mixes, outs)):
+        if out is None:
+            ctx.count("model.table-over-budget")
+            continue
+        F = cs["flt"] + sum(cs["heralds"].values())
+        o_spec = list(out) + [[[Fraction(pq[0]), 0] for pq in mix if sum(sum(g) for g in pq[1]) >= F]]
+        if un_pipe(o_spec[1])[0] * un_pipe(o_spec[1])[1] < 0.05:
+            ctx.count("source-grid.skipped-acceptance-below-0.05")
+            continue
+        ctx.count("source-grid." + ("distinguishable" if cs["noise"]["g2_distinguishable"] else "indistinguishable")
+                  + (".filter>=1" if F >= 1 else ".filter0"))
+        gof_processor(ctx, cs, o_spec, None, 30000, 5000 + tag)
+        done += 1
+    ctx.streams["source-grid"] = done
+
+
 # ------------------------------------------------------------------ stream: one long-lived processor through a history
 def apply_op(p, cs, op):
     """apply one reconfiguration to the live processor and to the configuration record (returns the new record)"""
@@ -1224,16 +1383,18 @@ def rand_op(r, cs):
         return ("filter", r.choice(lower) if lower and r.chance(2, 3) else r.choice(cand)) if cand else rand_op(r, cs)
     if k < 6:
         inp = [0] * len(cs["free"])
-        for _ in range(r.rint(1, 3)):
+        room = 2 - sum(cs["heralds"].values()) if (cs["noise"] or {}).get("g2", 0) > 0 else 3
+        for _ in range(r.rint(1, max(room, 1))):
             inp[r.below(len(inp))] += 1
         if sum(inp) + sum(cs["heralds"].values()) > 3:
             inp = [min(x, 1) for x in inp]
         return ("input", inp) if inp != cs["inp"] else rand_op(r, cs)
     if k == 6:
-        noise = dict(brightness=r.choice([1.0, 0.9, 0.6]), g2=0.0, indistinguishability=r.choice([1.0, 1.0, 0.9]),
-                     transmittance=r.choice([1.0, 0.8, 0.5]))
-        if noise == dict(brightness=1.0, g2=0.0, indistinguishability=1.0, transmittance=1.0):
-            noise = None
+        noise = rand_noise(r, n + sum(cs["heralds"].values()))
+        if noise:
+            noise["phase_error"] = 0.0       # (a random matrix per batch: only in the gof stream, where it is read back)
+            if noise == PERFECT:
+                noise = None
         return ("noise", noise) if noise != cs["noise"] else rand_op(r, cs)
     if cs["ps_str"] and r.chance(1, 2):
         return ("postselect", [0], None)
@@ -1266,7 +1427,9 @@ def stream_history(ctx):
             cs = rand_case(r.fork(("case", tries)), mmax=3, allow_dets=r.chance(1, 3))
         if cs.get("svd") or not cs["noise"]:
             continue
-        cs["noise"]["g2"] = 0.0
+        cs["noise"]["phase_error"] = 0.0
+        if cs["noise"] == PERFECT:
+            cs["noise"]["transmittance"] = 0.8
         if r.chance(1, 2):
             cs["flt"] = sum(cs["inp"])       # start high: the next filter move is down
         cfgs, ops, cur = [cs], [], cs
@@ -1485,9 +1648,11 @@ def run(ctx):
     ctx.log("point-input stream done")
     stream_history(ctx)
     ctx.log("history stream done")
+    stream_source_grid(ctx)
+    ctx.log("source-grid stream done")
 
     # random processors: the model gives acceptance probabilities (to avoid unbounded loops) and exact tables
-    n_b, n_g = ctx.n(5, 40), ctx.n(14, 200)
+    n_b, n_g = ctx.n(5, 40), ctx.n(10, 200)
     cases = [rand_case(rng.fork(("case", i))) for i in range(n_b + n_g)]
     reqs, pend = [], []
     for cs in cases:
@@ -1519,7 +1684,8 @@ def run(ctx):
         for o, lab in ((o_spec, "spec"), (o_impl, "impl")):
             pl, cd = o[0], o[1]
             pre_nonzero = any(sum(sum(g) for g in pq[1]) >= (F if lab == "spec" else cs["flt"]) for pq in mix)
-            if pre_nonzero and (pl[0] != cd[0] or pl[1] != cd[1]):
+            exact_U = effective_U(cs) is cs["circ"].U      # the theorem's hypothesis (normalised shots) needs an exactly unitary matrix
+            if pre_nonzero and exact_U and (pl[0] != cd[0] or pl[1] != cd[1]):
                 ctx.fail("model-pipeline-vs-condition", "pipeline and conditioning performances differ on an instance", describe(cs), cd[:2], pl[:2])
         ready.append((cs, o_spec, o_impl))
     def acceptance(o_spec, o_impl):
